@@ -104,12 +104,18 @@ func c18Multipart(fields url.Values) (string, *bytes.Buffer) {
 var c18CTypes = []string{"application/json; profile=\"https://example.com/schemas/xml\"", "text/xml; note=/json", "application/xml; v=\"/json\"",
 	"", "application/json", "application/json; charset=utf-8", "application/x-www-form-urlencoded", "application/x-www-form-urlencoded; charset=UTF-8",
 	"multipart/form-data", "application/xml", "text/xml", "text/xml; charset=utf-8", "text/plain", "application/octet-stream", "text/html", "application/jsonx",
-	"text/plain; a=/json", "application/vnd.api+json", "application/ld+json", "image/png", "application/x-json", "json", "application/yaml"}
+	"text/plain; a=/json", "application/vnd.api+json", "application/ld+json", "image/png", "application/x-json", "json", "application/yaml",
+	// xml-looking types that are not documented ones, and other spellings of the documented ones
+	"application/atom+xml", "application/x-xml", "application/xhtml+xml", "xml", "application/json ;charset=utf-8", " application/json", "application/xml;q=1", "application/json;", "text/xml ; x=1"}
 
 func c18Gen(r *Rng, tier string, i int) Sx {
 	switch i % 4 {
 	case 0:
-		return L(A("src"), S(r.Pick(rtMethods)), S(r.Pick(c18CTypes)))
+		m := r.Pick(rtMethods)
+		if r.Chance(1, 8) { // method names are compared as they are: only POST, PUT and PATCH (upper case) have a body
+			m = r.Pick([]string{"post", "Put", "PROPFIND", "PATCHX"})
+		}
+		return L(A("src"), S(m), S(r.Pick(c18CTypes)))
 	case 1:
 		return L(A("rt"), A(r.Pick([]string{"json", "xml", "form", "query", "multipart"})), I(int(r.Next()%1000000)))
 	case 2:
@@ -180,7 +186,11 @@ func c18Values(v c18Val) url.Values {
 // c18Auto binds through one of the three entry points of automatic binding (which one depends only on the case):
 // binding.Auto, Context.Bind, Context.AutoBind
 func c18Auto(req *http.Request, obj any, k int) error {
-	if k%3 == 0 {
+	std := false
+	for _, m := range rtMethods {
+		std = std || m == req.Method
+	}
+	if k%3 == 0 || !std { // (a router has no route for a method name such as "post": those go to binding.Auto directly)
 		return binding.Auto(req, obj)
 	}
 	// for JSON and XML bodies also the explicit entry points (they bind the body and call the validator like Auto does)
@@ -290,7 +300,12 @@ func c18Exec(c Sx) (out Sx) {
 		case strings.HasSuffix(mt, "/xml"):
 			body = bytes.NewBufferString(`<c18User><name>xml</name></c18User>`)
 		default:
-			body = bytes.NewBufferString(`{"name":"json"}`)
+			// an unknown type: the body is what a wrongly chosen binder would accept
+			if strings.Contains(mt, "xml") {
+				body = bytes.NewBufferString(`<c18User><name>xml</name></c18User>`)
+			} else {
+				body = bytes.NewBufferString(`{"name":"json"}`)
+			}
 		}
 		req := httptest.NewRequest(m, "/x?name=query&extra=q", body)
 		if ct != "" {
